@@ -30,6 +30,8 @@ type FaultVariant struct {
 	Workers  int  `json:"workers,omitempty"`
 	Flavour  string `json:"flavour,omitempty"` // force a flavour ("" = as recorded)
 	ByID     bool `json:"by_id,omitempty"`    // identity-based fault instead of positional
+	Sched    string `json:"sched,omitempty"`  // run every commit under the controlled scheduler with this policy (positions of the order-relaxed commit then replay exactly)
+	SchedSeed uint64 `json:"sched_seed,omitempty"`
 }
 
 func (v FaultVariant) String() string { b, _ := json.Marshal(v); return string(b) }
@@ -150,7 +152,7 @@ func execWithFaults(tr *Trace, variant FaultVariant, twin []commitPoint, stats *
 			}
 			if n > 0 {
 				f := &FaultSpec{Attempts: variant.Attempts}
-				byID := variant.ByID || (st.Flavour == "nfc" && st.Workers > 1)
+				byID := variant.ByID || (st.Flavour == "nfc" && st.Workers > 1 && (variant.Sched == "" || scheduledCommit == nil))
 				if byID {
 					f.WriteIdx = []int{variant.E}
 					if variant.Pair > 0 {
@@ -168,7 +170,14 @@ func execWithFaults(tr *Trace, variant FaultVariant, twin []commitPoint, stats *
 				st.Retries = 4
 			}
 		}
-		if v := w.execGuarded(&st); v != nil {
+		var v *Violation
+		if isCommit && variant.Sched != "" && scheduledCommit != nil {
+			stats.Inc("c14.scheduled-commit")
+			v = scheduledCommit(w, &st, ExecVariant{Sched: variant.Sched, Seed: variant.SchedSeed}, NewRng(variant.SchedSeed).Sub("c14"))
+		} else {
+			v = w.execGuarded(&st)
+		}
+		if v != nil {
 			return v
 		}
 		if isCommit {
@@ -191,6 +200,7 @@ func init() {
 	ps := &PropSpec{
 		ID: "C14", Level: "fault_enumeration",
 		Verdict: []string{"c14.", "commit.fault-swallowed", "commit.fault-category", "live."},
+		Assumptions: []string{"positional faults of the order-relaxed commit with several workers replay exactly only in the variants that run under the controlled scheduler; the other variants use identity-based faults there"},
 		Rule: "for each sampled history (both commit flavours, reopen, multi-owner, nested) a fault-free dry run gives the number n_j of writes/deletes of every commit j; the history is then re-executed once per failing position e (commit j fails its ((e mod n_j)+1)-th write; every single position of every commit is enumerated in thorough, an evenly spread sample incl. first and last in quick), plus pairs of positions, faults persisting for 2 attempts, identity-based faults, worker counts {1,2,8} and both flavours; each failed attempt must return an external error wrapping the injected one, every change of the pre-commit write set must be pending or durable, reads must still match the model, and after retrying to success the registers must be byte-identical to the fault-free twin at that commit point and nothing owned may stay pending. Non-trivial = >= 1 failed attempt in a commit of >= 3 writes; distinct by trace hash",
 		ExpectedReach: []string{"c14.failed-attempt-checked", "c14.converged", "c14.fault-by-identity", "c14.fault-by-position", "c14.durable-after-failure", "commit.nfc", "commit.fc"},
 	}
@@ -284,7 +294,12 @@ func init() {
 		}
 		for k := 0; k < extra; k++ {
 			fv := FaultVariant{E: vr.Intn(maxN), Workers: []int{1, 2, 8}[vr.Intn(3)]}
-			switch vr.Intn(4) {
+			switch vr.Intn(5) {
+			case 4:
+				fv.Sched = []string{"random", "last", "starve", "rr"}[vr.Intn(4)]
+				fv.SchedSeed = vr.U64()
+				fv.Workers = []int{2, 3, 8}[vr.Intn(3)]
+				fv.Flavour = "nfc"
 			case 0:
 				fv.Pair = 1 + vr.Intn(maxN)
 			case 1:
